@@ -53,6 +53,26 @@ pub fn image(journal: &[Ev], cp: &CrashPoint) -> Tree {
         for n in names {
             let durable = t.durable_len.get(&n).copied().unwrap_or(0) as usize;
             let len = t.files[&n].len();
+            if cp.hole && len > durable {
+                // pages of the un-synced end written out of order: an earlier page's share of it
+                // is missing (zeros) while a later page's share is there
+                let first = durable.div_ceil(4096) * 4096; // first page boundary at or after `durable`
+                if first > durable && first < len {
+                    let f = t.files.get_mut(&n).unwrap();
+                    let whole_pages = (len - first) / 4096;
+                    if whole_pages >= 1 && rng.chance(1, 2) {
+                        let at = first + 4096 * rng.usize(whole_pages);
+                        for b in &mut f[at..(at + 4096).min(len - 1)] {
+                            *b = 0;
+                        }
+                    } else {
+                        for b in &mut f[durable..first] {
+                            *b = 0;
+                        }
+                    }
+                    continue;
+                }
+            }
             if len > durable {
                 // the un-synced end of a file: cut back to any length >= the synced one, or kept
                 // in length with its bytes never written (zero-filled from some point on: the
@@ -264,6 +284,8 @@ pub async fn run(cx: &mut Ctx) {
                         tail_seed: rng.next(),
                         second,
                         lose_dirents,
+                        // (a known finding: only in the runs that do not steer around those)
+                        hole: lose && cx.case.param("avoid", 1) == 0 && rng.chance(1, 2),
                     });
                 }
             }
